@@ -71,6 +71,27 @@ def stepOp (version : Bytes) (d : DSt) (line : String) : DSt × String :=
       match stepTimeout d.st (id.toInt?.getD 0) with
       | .ok (s, out, fired) => ({ d with st := s }, s!"out {hexLines out} {if fired then "fired" else "no-timer"}")
       | .error f => ({ d with faulted := true }, s!"fault {repr f}")
+    | ["elapse"] =>
+      if !d.started then (d, "bad-op") else
+      -- every armed timer fires, oldest request first (a sequence of `timeout` steps)
+      let armed := (d.st.reqs.filter (·.timer == .armed)).map fun r => (r.serial, r.client)
+      let order := (armed.toArray.qsort (fun a b => a.1 < b.1)).toList
+      let rec go (s : State) (todo : List (Nat × Int)) (out : List Bytes) (fired : List Int) : Except Fault (State × List Bytes × List Int) :=
+        match todo with
+        | [] => .ok (s, out, fired)
+        | (serial, id) :: rest =>
+          match findReq s.reqs id with
+          | some r =>
+            if r.serial == serial && r.timer == .armed then
+              match stepTimeout s id with
+              | .ok (s', o, _) => go s' rest (out ++ o) (fired ++ [id])
+              | .error f => .error f
+            else go s rest out fired
+          | none => go s rest out fired
+      match go d.st order [] [] with
+      | .ok (s, out, fired) =>
+        ({ d with st := s }, s!"out {hexLines out} fired={",".intercalate (fired.map toString)}")
+      | .error f => ({ d with faulted := true }, s!"fault {repr f}")
     | "reload" :: _ :: rest =>
       if !d.started then (d, "bad-op") else
       let (cfg, bad) := parseConfig rest
@@ -154,6 +175,16 @@ def judgeOp (j : JSt) (op : String) (rec : String) : JSt × String :=
       let t := onTimeout j.t (id.toInt?.getD 0) fired
       let (t, v) := onOutputs t {} outs
       ({ j with t := t }, fmtViol (v ++ stuck t))
+    | ["elapse"] =>
+      if j.skip then (j, "skip") else
+      let firedTxt := (rf.getLast?.getD "fired=").drop 6 |>.toString
+      let names := if firedTxt.isEmpty then [] else firedTxt.splitOn ","
+      let outs := match rf with | "out" :: oh :: _ => unhexLines oh | _ => []
+      let v0 : List Violation :=
+        if names.contains "orphan" then [⟨"C10", "a timer belonging to a finished or replaced request fired"⟩] else []
+      let t := names.foldl (fun t n => match n.toInt? with | some id => onTimeout t id true | none => t) j.t
+      let (t, v) := onOutputs t {} outs
+      ({ j with t := t }, fmtViol (v0 ++ v ++ stuck t))
     | "reload" :: _ :: rest =>
       let (cfg, bad) := parseConfig rest
       let ok := match rf with | "rc" :: r :: _ => r == "0" | _ => false
